@@ -303,6 +303,25 @@ out:
     mc_outcome(idx);
 }
 #endif
+#if TRACKED
+/* ---- the library's own helpers that release tracked blocks: what they free leaves the table */
+static void fa_desc(uint64_t idx, void *ctx, char *b, size_t n) { (void) ctx; snprintf(b, n, "array of %d tracked strings behind a tracked pointer block, spiftool_free_array(list, %s)", (int) (idx / 2), idx % 2 ? "the count" : "0: up to the NULL element"); }
+static void fa_case(uint64_t idx, void *ctx)
+{
+    int n = (int) (idx / 2), exact = (int) (idx % 2); (void) ctx;
+    mc_set_shape("free_array"); libast_debug_level = 0; sibling_tables_prelude();
+    libast_debug_level = 5; malloc_rec.cnt = 0; g_ndead = 0; g_realloc_mode = 0;
+    char **l = (char **) MALLOC(sizeof(char *) * (size_t) (n + 1));
+    for (int i = 0; i < n; i++) l[i] = (char *) STRDUP("element");
+    l[n] = NULL;
+    if (malloc_rec.cnt != (unsigned long) (n + 1)) FAIL("spifmem", "model:record-count", "free_array", "%lu records after allocating a list of %d strings", (unsigned long) malloc_rec.cnt, n);
+    spiftool_free_array(l, exact ? (size_t) n : 0);
+    if (malloc_rec.cnt != 0) FAIL("spiftool_free_array", "model:record-count", "free_array", "%lu records are left after the array and its %d elements were freed", (unsigned long) malloc_rec.cnt, n);
+    malloc_rec.cnt = 0; libast_debug_level = 0;
+    mc_nontrivial();
+    mc_outcome(idx);
+}
+#endif
 int main(int argc, char **argv)
 {
     mc_init("C15", argc, argv);
@@ -319,6 +338,7 @@ int main(int argc, char **argv)
     }
     libast_debug_level = 0;
 #if TRACKED
+    if (!mc_arg("only", NULL)) mc_e2_level("free_array", 3, 8, fa_case, fa_desc, NULL);
 #if defined(__SANITIZE_ADDRESS__) || (defined(__has_feature) && __has_feature(address_sanitizer))
     mc_e2_level("many_blocks", 66000, (uint64_t) NMANY * 3, many_case, many_desc, NULL);
 #else
